@@ -16,9 +16,9 @@ for d in sorted(glob.glob('/verif/seeded/*/')):
     what=re.sub(r'\s+',' ',what).replace('|','/')
     if len(what)>150: what=what[:147]+'…'
     origin='sub-agent' if 'agent' in m['id'] else ('revert of fix' if m['id'].startswith('revert') else 'hand-written')
-    rows.append((m['id'],origin,','.join(m.get('breaks',[])),','.join(m.get('detected_by',[])) or 'MISSED',what))
+    rows.append((m['id'],origin,','.join(m.get('breaks',[])),','.join(m.get('detected_by',[])) or ('not claimed (see meta.json)' if m.get('not_claimed') else 'MISSED'),what))
 print('| seeded change | origin | meant to break | detected by (quick tier) | what it is / needs |')
 print('|---|---|---|---|---|')
 for r in rows: print('| %s | %s | %s | %s | %s |'%r)
 print()
-print('%d seeded changes, %d detected by the quick tier of at least one check.'%(len(rows),sum(1 for r in rows if r[3]!='MISSED')))
+print('%d seeded changes, %d detected by the quick tier of at least one check.'%(len(rows),sum(1 for r in rows if r[3]!='MISSED' and not r[3].startswith('not claimed'))))
